@@ -689,4 +689,9 @@ theorem entryValid_congr {a b : List Req} (h : ∀ d, lookup d a = lookup d b) (
   unfold entryValid
   simp only [h]
 
+theorem allNodesNs_append (ns ms : List PNode) : allNodesNs (ns ++ ms) = allNodesNs ns ++ allNodesNs ms := by
+  induction ns with
+  | nil => simp [allNodesNs]
+  | cons n ns ih => simp [allNodesNs, ih, List.append_assoc]
+
 end Opset
